@@ -49,10 +49,10 @@ type tcpSys struct {
 	// ConnectSlow / DialDone: the outgoing dial of one Connect is parked on dialGate
 	dialGate chan struct{}
 	dialTxid [stun.TransactionIDSize]byte
-	curPay  []byte
-	gen     *tcpGen
-	evMu    sync.Mutex
-	events  []Event
+	curPay   []byte
+	gen      *tcpGen
+	evMu     sync.Mutex
+	events   []Event
 }
 
 type tcpGen struct {
